@@ -510,7 +510,11 @@ class SchemaValidator:
                             # the type of the provided default value must match the type of the field on the object definition
                             expected_type = attributes[key]["type"]
                             actual_type = pipeline_utils.type_details_from_scalar(
-                                val
+                                val,
+                                # an empty list takes the item type of the attribute
+                                expected_type=expected_type
+                                if isinstance(val, list)
+                                else None,
                             ).to_field_type_string()
                             if actual_type != expected_type:
                                 errors += [
